@@ -277,6 +277,26 @@ def main():
         rep.violation("c12:pub-constant-initialiser-not-resolvable-in-importer", {"files": dict(probe), "implementation": pa[:300]})
     else:
         rep.notes.append("known finding F37 no longer reproduces on its probe")
+    # directories: two modules with the same file name in different directories, each imported by its sibling by bare name
+    # (an import is looked up as written among the given files, then relative to the importing file); every file order
+    import itertools as _it
+    dfiles = [("app/main.pn", 'import "util.pn";\nimport "lib/tool.pn";\nfn main() -> i32\n{\n\tvar a = scaled(5);\n\tvar b = 7 * FACTOR;\n\treturn: a + b\n}\n'),
+              ("lib/tool.pn", 'import "util.pn";\npub fn scaled(x: i32) -> i32\n{\n\treturn: x * FACTOR\n}\n'),
+              ("lib/util.pn", "pub const FACTOR: i32 = 2;\n"),
+              ("app/util.pn", "pub const FACTOR: i32 = 3;\n")]
+    dreqs = ["alpha\trun\t" + "\t".join(x for j in o for x in (dfiles[j][0], esc(dfiles[j][1]))) for o in _it.permutations(range(4))]
+    dres = run_harness(dreqs)
+    for o, rq, da in zip(_it.permutations(range(4)), dreqs, dres):
+        total += 1
+        dh_, dd_ = kv(da)
+        dist["directories:" + dh_] += 1
+        if dh_ == "ok" and dd_.get("status") == "31":
+            agreeing += 1
+        else:
+            rep.violation("directories:" + "".join(map(str, o)), {
+                "why": "app/main.pn imports its sibling util.pn (FACTOR = 3) and lib/tool.pn, which imports ITS sibling util.pn (FACTOR = 2): "
+                       "scaled(5) + 7 * FACTOR = 10 + 21 = 31 in every file order; got " + da[:160],
+                "files": dict(dfiles), "order": [dfiles[j][0] for j in o], "harness_request": rq})
     # the silent variant: the importer has a PRIVATE constant of the same name as the private constant that the spliced
     # initialiser mentions - the pub constant then has another value in the importer than in its own module (F69)
     cap = [("lib.pn", "const X: i32 = 3;\npub const Y: i32 = X + 1;\npub fn y_at_home() -> i32\n{\n\treturn: Y\n}\n"),
